@@ -23,7 +23,25 @@ func extend(id string, rules ...func(*Ctx)) {
 }
 
 func init() {
-	extend("C03", ruleC03GuardAgreement)
+	extend("C03", ruleC03GuardAgreement, ruleRecordKeysExplicit("C03.record-keys-explicit"))
+	extend("C02", ruleRecordKeysExplicit("C02.record-keys-explicit"), ruleRenameMoves("C02.rename-moves"))
+	extend("C12", ruleRenameMoves("C12.rename-moves"))
+	extend("C14", ruleWriteCursorAfterLoad("C14.write-cursor-after-load"), ruleCachedSizeReadModeOnly("C14.cached-size-read-mode-only"))
+	extend("C04", ruleIndexReadsUnderLock("C04.index-reads-under-lock"), ruleMoveOneRow("C04.move-one-row"))
+	extend("C07", ruleMoveOneRow("C07.move-one-row"), ruleRowLevelWrites("C07.row-level-writes"))
+	extend("C12", ruleRowLevelWrites("C12.row-level-writes"))
+	extend("C18", rulePasswordVerbatim("C18.password-verbatim"), ruleStreamWrapperContract("C18.stream-wrapper-contract"), ruleNoBoundedCopy("C18.no-bounded-copy"))
+	extend("C08", ruleStreamWrapperContract("C08.stream-wrapper-contract"))
+	extend("C09", ruleNoBoundedCopy("C09.no-bounded-copy"))
+	extend("C03", ruleStreamWrapperContract("C03.stream-wrapper-contract"), ruleNoBoundedCopy("C03.no-bounded-copy"))
+	extend("C07", ruleCreateResetsAllColumns("C07.create-resets-all-columns"))
+	extend("C13", ruleCreateResetsAllColumns("C13.create-resets-all-columns"))
+	extend("C05", ruleSentinelProduced("C05.sentinel-produced"), rulePaddingIsFreshZeros("C05.padding-fresh-zeros"))
+	extend("C09", rulePaddingIsFreshZeros("C09.padding-fresh-zeros"), ruleRestoreOnlyThroughFetch("C09.restore-only-through-fetch"))
+	extend("C08", ruleRestoreOnlyThroughFetch("C08.restore-only-through-fetch"))
+	extend("C10", ruleSentinelProduced("C10.sentinel-produced"))
+	extend("C11", ruleIndexReadsUnderLock("C11.index-reads-under-lock"))
+	extend("C03", ruleWriteCursorAfterLoad("C03.write-cursor-after-load"))
 	extend("C08", ruleErrorPropagated("C08.verify-error-propagated", true), ruleC08ContentVerifyThreading)
 	extend("C09", ruleErrorPropagated("C09.decrypt-error-propagated", false))
 	extend("C12", ruleC12PrefixRewrite, ruleC12SupersetSelect)
@@ -31,7 +49,9 @@ func init() {
 	extend("C14", ruleC14FreshSizeOnWriteEntry)
 	extend("C04", ruleC04PositionFromDrive, ruleC04OverwriteStartsAtZero)
 	extend("C07", ruleC07MutatorAlwaysWrites, ruleRootPreload("C07.root-preload"))
-	extend("C17", ruleRootPreload("C17.root-preload"))
+	extend("C17", ruleRootPreload("C17.root-preload"), ruleRootCacheWriters("C17.root-cache-writers"))
+	extend("C11", ruleRootCacheWriters("C11.root-cache-writers"))
+	extend("C16", ruleCacheLayerStartsEmpty("C16.cache-layer-starts-empty"))
 	extend("C11", ruleC11AtomicCheckThenAct, ruleC11ExclusiveMode)
 }
 
@@ -1237,6 +1257,32 @@ func ruleInitializingProvenance(rule string) func(*Ctx) {
 		}
 		if n < half(8) {
 			c.unresolved("only %d initializing arguments found", n)
+		}
+		// the flag is decided by the caller alone: no function overrides its own initializing parameter
+		for _, f := range c.Funcs {
+			pv := paramVar(f, "initializing")
+			if pv == nil || f.Body() == nil {
+				continue
+			}
+			info := f.Pkg.TypesInfo
+			k := 0
+			ast.Inspect(f.Body(), func(nd ast.Node) bool {
+				switch x := nd.(type) {
+				case *ast.AssignStmt:
+					for _, l := range x.Lhs {
+						if objOfIdent(info, l) == types.Object(pv) {
+							k++
+							c.bad(rule, f, fmt.Sprintf("initializing overridden#%d", k), x.Pos(), "%s assigns to its initializing parameter: whether names are stored verbatim is then decided from local state instead of by the one caller that creates a fresh root; replayed names of existing content are stored without normalisation", f.Name)
+						}
+					}
+				case *ast.UnaryExpr:
+					if x.Op == token.AND && objOfIdent(info, x.X) == types.Object(pv) {
+						k++
+						c.bad(rule, f, fmt.Sprintf("initializing overridden#%d", k), x.Pos(), "%s takes the address of its initializing parameter", f.Name)
+					}
+				}
+				return true
+			})
 		}
 	}
 }
@@ -3125,7 +3171,7 @@ func ruleC03SuffixSymmetry(c *Ctx) {
 		return out
 	}
 	// what the writers require
-	writerNeedsContent := false
+	writerNeedsContent, writerNeedsRegular := false, false
 	nw := 0
 	for _, f := range c.Funcs {
 		if f.RelPkg() != "pkg/operations" {
@@ -3136,6 +3182,9 @@ func ruleC03SuffixSymmetry(c *Ctx) {
 				nw++
 				if kinds(f, cs.Call)["has-content"] {
 					writerNeedsContent = true
+				}
+				if kinds(f, cs.Call)["regular"] {
+					writerNeedsRegular = true
 				}
 			}
 		}
@@ -3160,6 +3209,22 @@ func ruleC03SuffixSymmetry(c *Ctx) {
 				"the writers append the format suffix only to regular entries that carry content, but the indexer strips it from every regular entry: a name that itself ends in the suffix (an empty \"/data.gz\" under gzip, or any such name in a metadata-only/move/delete record) is indexed under a shortened name and can no longer be found")
 		}
 	}
+	// separately: the kind guard. Directories, links and other non-regular entries never get a suffix from the writers
+	m := 0
+	for _, f := range c.Funcs {
+		if f.RelPkg() != "pkg/recovery" {
+			continue
+		}
+		for _, cs := range f.calls {
+			if cs.Target != rem {
+				continue
+			}
+			m++
+			k := kinds(f, cs.Call)
+			c.verdictIf(!writerNeedsRegular || k["regular"], rule, f, fmt.Sprintf("RemoveSuffix#%d regular entries only", m), cs.Call.Pos(), "the suffix is stripped from regular entries only, like the writers add it",
+				"the indexer strips the format suffix from entries of every kind while the writers add it to regular files only: a directory or link whose own name ends in the suffix (\"/in.gz\" under gzip) is indexed under a shortened name while its children keep the full prefix, so they lose their parent")
+		}
+	}
 	if n == 0 {
 		c.unresolved("the indexer no longer calls RemoveSuffix")
 	}
@@ -3168,4 +3233,1178 @@ func ruleC03SuffixSymmetry(c *Ctx) {
 func init() {
 	extend("C03", ruleC03SuffixSymmetry)
 	extend("C02", func(c *Ctx) {})
+}
+
+// ruleRecordKeysExplicit: headers are rebuilt from index rows, whose PAX records are whatever the entry's LAST record
+// carried. Every STFS key the indexer consults for the action a writer emits must therefore be stored explicitly by
+// that writer before each WriteHeader - otherwise a stale value rides along (a chmod after a content write would be
+// replayed as a content replacement and the entry would point at a record without content).
+func ruleRecordKeysExplicit(rule string) func(*Ctx) {
+	return func(c *Ctx) {
+		c.floor(rule, 11, "WriteHeader sites of Update, Move, Delete x required STFS record keys")
+		need := map[string][]string{
+			// archive writes plain CREATE members (a header without STFS records is a create for the indexer)
+			"(*Operations).Update": {"STFSRecordVersion", "STFSRecordAction", "STFSRecordReplacesContent"},
+			"(*Operations).Move":   {"STFSRecordVersion", "STFSRecordAction", "STFSRecordReplacesName"},
+			"(*Operations).Delete": {"STFSRecordVersion", "STFSRecordAction"},
+		}
+		paxField := c.extField("archive/tar", "Header", "PAXRecords")
+		for _, ws := range writeHeaderSites(c) {
+			f := ws.f
+			root := f
+			for root.Outer != nil {
+				root = root.Outer
+			}
+			keys, ok := need[root.Name]
+			if !ok || f.RelPkg() != "pkg/operations" {
+				continue
+			}
+			info := f.Pkg.TypesInfo
+			if ws.h == nil {
+				c.undecided(rule, f, fmt.Sprintf("WriteHeader#%d", ws.ord), ws.cs.Call.Pos(), "WriteHeader argument is not a plain variable")
+				continue
+			}
+			fl := c.flow(f)
+			for _, k := range keys {
+				ko := c.constObj("internal/records", k)
+				if ko == nil {
+					continue
+				}
+				good, reach := fl.dominatedBy(ws.cs.Call, func(n ast.Node) bool {
+					as, ok := n.(*ast.AssignStmt)
+					if !ok || len(as.Lhs) != 1 {
+						return false
+					}
+					ix, ok := ast.Unparen(as.Lhs[0]).(*ast.IndexExpr)
+					if !ok || constOf(info, ix.Index) != ko {
+						return false
+					}
+					se, ok := ast.Unparen(ix.X).(*ast.SelectorExpr)
+					return ok && (paxField == nil || selField(info, se) == paxField) && objOfIdent(info, se.X) == ws.h
+				}, nil)
+				if !reach {
+					continue
+				}
+				c.verdictIf(good, rule, f, fmt.Sprintf("WriteHeader#%d %s", ws.ord, strings.TrimPrefix(k, "STFSRecord")), ws.cs.Call.Pos(),
+					"the record key is stored explicitly on every path to the write", "the header can be written without "+k+" having been stored explicitly on this path: the value left over from the entry's previous record (kept in the index row) rides along and is replayed by the indexer")
+			}
+		}
+	}
+}
+
+// ruleWriteCursorAfterLoad: when a handle enters write mode it loads the existing content into a fresh buffer, which
+// leaves the buffer's cursor behind that content. Unless the handle appends, every success exit must have rewound the
+// buffer (Seek(0, SeekStart)) after the load - also on the O_TRUNC path, where the file-backed cache would otherwise
+// write behind a hole of the old length.
+func ruleWriteCursorAfterLoad(rule string) func(*Ctx) {
+	return func(c *Ctx) {
+		c.floor(rule, 1, "success exits of (*File).enterWriteMode")
+		f := c.fn("pkg/fs", "(*File).enterWriteMode")
+		appendField := c.field("pkg/fs", "FileFlags", "Append")
+		writeBuf := c.field("pkg/fs", "File", "writeBuf")
+		s := c.sinks()
+		if f == nil || appendField == nil || writeBuf == nil {
+			return
+		}
+		info := f.Pkg.TypesInfo
+		fl := c.flow(f)
+		const rewoundOrAppending, notTruncated = 1, 2
+		isRewind := func(call *ast.CallExpr) bool {
+			se, ok := ast.Unparen(call.Fun).(*ast.SelectorExpr)
+			if !ok || se.Sel.Name != "Seek" || selField(info, se.X) != writeBuf || len(call.Args) != 2 {
+				return false
+			}
+			tv0, tv1 := info.Types[call.Args[0]], info.Types[call.Args[1]]
+			return tv0.Value != nil && tv0.Value.String() == "0" && tv1.Value != nil && tv1.Value.String() == "0"
+		}
+		loads := 0
+		an := &Analysis{Must: true, Entry: rewoundOrAppending | notTruncated,
+			Node: func(n ast.Node, st State) State {
+				for _, call := range callsIn(n) {
+					// a fresh buffer, or content streamed into it: the cursor is no longer known to be at the start
+					if se, ok := ast.Unparen(call.Fun).(*ast.SelectorExpr); ok {
+						if fv := selField(info, se); fv != nil && fv == s.getBufF {
+							st &^= rewoundOrAppending
+							loads++
+						}
+						if se.Sel.Name == "Restore" {
+							st &^= rewoundOrAppending
+						}
+						// shrinking the buffer leaves the cursor where it was - possibly beyond the new end
+						if se.Sel.Name == "Truncate" && selField(info, se.X) == writeBuf {
+							st &^= rewoundOrAppending | notTruncated
+						}
+					}
+					if isRewind(call) {
+						st |= rewoundOrAppending | notTruncated
+					}
+				}
+				return st
+			},
+			Edge: func(b *cfg.Block, i int, st State) State {
+				for _, ft := range fl.edgeFacts(b, i) {
+					// appending continues behind the loaded content - unless the buffer may have been shrunk since
+					if selField(info, ft.E) == appendField && ft.Pos && st&notTruncated != 0 {
+						st |= rewoundOrAppending
+					}
+				}
+				return st
+			}}
+		fl.solve(an)
+		if loads == 0 {
+			c.unresolved("enterWriteMode no longer obtains its buffer through getFileBuffer")
+			return
+		}
+		k := 0
+		fl.exits(an, func(ret *ast.ReturnStmt, ord int, st State) {
+			if ret != nil && !returnsNil(info, ret) {
+				return
+			}
+			k++
+			pos := f.Decl.End()
+			if ret != nil {
+				pos = ret.Pos()
+			}
+			c.verdictIf(st&rewoundOrAppending != 0, rule, f, fmt.Sprintf("success exit#%d", k), pos,
+				"after loading (and possibly truncating) the existing content the buffer is rewound, or the handle appends to the untruncated content", "write mode can be entered with the buffer's cursor left behind the loaded content although the handle does not append, or although the buffer was truncated after loading (O_TRUNC, with or without O_APPEND): the next write lands at the old length, leaving a hole of zeros before it")
+		})
+	}
+}
+
+// ruleIndexReadsUnderLock: an operation that appends to the tape decides WHERE the index pass after the write starts
+// (GetLastIndexedRecordAndBlock) and WHAT it writes (GetHeader, GetHeaderChildren, ...) from the index. Those reads
+// must happen while the operation lock is held: read earlier, another operation can append in between, and the
+// post-write index pass then starts at a stale position and pairs this operation's headers with the other's records.
+func ruleIndexReadsUnderLock(rule string) func(*Ctx) {
+	return func(c *Ctx) {
+		c.floor(rule, 8, "index-store and recovery.Index calls in the writing operations")
+		mu := c.mutex("operations")
+		iface := c.namedType("pkg/config", "MetadataPersister")
+		index := c.fn("pkg/recovery", "Index")
+		s := c.sinks()
+		if mu == nil || iface == nil || index == nil {
+			return
+		}
+		for _, f := range c.Funcs {
+			if f.RelPkg() != "pkg/operations" || f.Decl == nil {
+				continue
+			}
+			takesWriter := false
+			for _, cs := range f.calls {
+				if s.sinkOf(cs) != "" && strings.Contains(s.sinkOf(cs), "GetWriter") {
+					takesWriter = true
+				}
+			}
+			if !takesWriter {
+				continue
+			}
+			info := f.Pkg.TypesInfo
+			fl := c.flow(f)
+			deferred := map[*ast.CallExpr]bool{}
+			walkOwn(f.Body(), func(nd ast.Node) {
+				if d, ok := nd.(*ast.DeferStmt); ok {
+					deferred[d.Call] = true
+				}
+			})
+			const held = 1
+			// an unexported helper that is entered with the lock held by every caller (Archive/Initialize -> archive)
+			entry := State(0)
+			if !f.Decl.Name.IsExported() {
+				callers, allHeld := 0, true
+				for _, g := range c.Funcs {
+					for _, cs := range g.calls {
+						if cs.Target != f {
+							continue
+						}
+						callers++
+						if !c.lockHeldAt(g, cs.Call, mu) {
+							allHeld = false
+						}
+					}
+				}
+				if callers > 0 && allHeld {
+					entry = held
+				}
+			}
+			an := &Analysis{Must: true, Entry: entry, Node: func(n ast.Node, st State) State {
+				if _, ok := n.(*ast.DeferStmt); ok {
+					return st
+				}
+				for _, call := range callsIn(n) {
+					if mv, op := mutexField(info, call); mv == mu {
+						if op == "Lock" {
+							st |= held
+						} else if op == "Unlock" && !deferred[call] {
+							st &^= held
+						}
+					}
+				}
+				return st
+			}}
+			fl.solve(an)
+			k := 0
+			check := func(node ast.Node, what string) {
+				k++
+				st, reach := fl.before(an, node)
+				if !reach {
+					return
+				}
+				c.verdictIf(st&held != 0, rule, f, fmt.Sprintf("index read#%d %s", k, what), node.Pos(),
+					"the index is consulted while the operation lock is held", "the index is consulted ("+what+") before the operation lock is taken (or after it was released): another operation can append in between, so the position/entries this operation works with are stale and its post-write index pass pairs headers with the wrong records")
+			}
+			isIndexCall := func(g *FuncInfo, cs *CallSite) (string, bool) {
+				if cs.Target == index {
+					return "recovery.Index", true
+				}
+				if fn, ok := cs.Callee.(*types.Func); ok {
+					if sig, ok := fn.Type().(*types.Signature); ok && sig.Recv() != nil && types.Identical(sig.Recv().Type(), iface) {
+						return fn.Name(), true
+					}
+				}
+				return "", false
+			}
+			for _, cs := range f.calls {
+				if what, ok := isIndexCall(f, cs); ok {
+					check(cs.Call, what)
+				}
+			}
+			// closures defined in the operation that consult the index: the definition must lie in the locked region
+			for _, l := range c.litsIn(f) {
+				uses := false
+				for _, cs := range l.calls {
+					if _, ok := isIndexCall(l, cs); ok {
+						uses = true
+					}
+				}
+				if uses && l.Outer == f {
+					isDeferred := false
+					walkOwn(f.Body(), func(nd ast.Node) {
+						if d, ok := nd.(*ast.DeferStmt); ok && d.Call.Fun == ast.Expr(l.Lit) {
+							isDeferred = true
+						}
+					})
+					if !isDeferred {
+						check(l.Lit, "closure "+l.Name)
+					}
+				}
+			}
+		}
+	}
+}
+
+// lockHeldAt: mutex mu has been locked in g (and not explicitly released) on every path to node.
+func (c *Ctx) lockHeldAt(g *FuncInfo, node ast.Node, mu *types.Var) bool {
+	if g.Body() == nil {
+		return false
+	}
+	info := g.Pkg.TypesInfo
+	fl := c.flow(g)
+	deferred := map[*ast.CallExpr]bool{}
+	walkOwn(g.Body(), func(nd ast.Node) {
+		if d, ok := nd.(*ast.DeferStmt); ok {
+			deferred[d.Call] = true
+		}
+	})
+	an := &Analysis{Must: true, Entry: 0, Node: func(n ast.Node, st State) State {
+		if _, ok := n.(*ast.DeferStmt); ok {
+			return st
+		}
+		for _, call := range callsIn(n) {
+			if mv, op := mutexField(info, call); mv == mu {
+				if op == "Lock" {
+					st |= 1
+				} else if op == "Unlock" && !deferred[call] {
+					st &^= 1
+				}
+			}
+		}
+		return st
+	}}
+	fl.solve(an)
+	st, reach := fl.before(an, node)
+	return reach && st&1 != 0
+}
+
+// ruleMoveOneRow: one UPDATE record describes one entry; the tape carries a separate record for every descendant of a
+// moved directory, and each is replayed on its own. MoveHeader's statement must therefore address exactly the row of
+// the old name (`where name = ?`): a statement that also renames descendants makes their own records find nothing,
+// so nobody records where those records are and the last-indexed position falls behind the end of the tape.
+func ruleMoveOneRow(rule string) func(*Ctx) {
+	return func(c *Ctx) {
+		c.floor(rule, 1, "raw UPDATE statements of MoveHeader")
+		f := c.fn("pkg/persisters", "(*MetadataPersister).MoveHeader")
+		if f == nil {
+			return
+		}
+		info := f.Pkg.TypesInfo
+		n := 0
+		for _, cs := range f.calls {
+			fn, ok := cs.Callee.(*types.Func)
+			if !ok || fn.Name() != "Raw" || fn.Pkg() == nil || fn.Pkg().Path() != queriesPath || len(cs.Call.Args) == 0 {
+				continue
+			}
+			pieces := flattenSQL(f, cs.Call.Args[0], 0)
+			var sb strings.Builder
+			for _, p := range pieces {
+				if p.expr != nil {
+					if se, ok := ast.Unparen(p.expr).(*ast.SelectorExpr); ok {
+						sb.WriteString("<" + strings.ToLower(se.Sel.Name) + ">")
+					} else {
+						sb.WriteString("<?>")
+					}
+				} else {
+					sb.WriteString(strings.ToLower(p.lit))
+				}
+			}
+			_ = info
+			text := strings.Join(strings.Fields(sb.String()), " ")
+			if !strings.HasPrefix(text, "update") {
+				continue
+			}
+			n++
+			i := strings.Index(text, " where ")
+			where := ""
+			if i >= 0 {
+				where = strings.TrimSuffix(strings.TrimSpace(text[i+len(" where "):]), ";")
+			}
+			// a conjunction one of whose conjuncts is the equality on the name column (further conjuncts only narrow it)
+			good := !strings.Contains(" "+where+" ", " or ")
+			hasEq := false
+			for _, cj := range strings.Split(where, " and ") {
+				if strings.TrimSpace(cj) == "<name> = ?" {
+					hasEq = true
+				}
+			}
+			good = good && hasEq
+			c.verdictIf(good, rule, f, fmt.Sprintf("update#%d where", n), cs.Call.Pos(), "the rename addresses exactly the row of the old name", "the rename's where clause is `"+where+"`, not `name = ?`: rows other than the moved entry's are rewritten by one record, and the records written for them are then replayed against names that no longer exist")
+		}
+		if n == 0 {
+			c.unresolved("no raw UPDATE statement found in MoveHeader")
+		}
+	}
+}
+
+// ruleSentinelProduced: a package-level error value of the repository that some branch compares an error against
+// (==, !=, errors.Is, switch case) must be produced somewhere in the repository (returned, wrapped, stored, passed
+// on). A sentinel that is only ever compared against - e.g. a local errors.New copy of another package's message -
+// can never match, so the branch it guards (skipping sockets while archiving) is dead and the error path is taken.
+func ruleSentinelProduced(rule string) func(*Ctx) {
+	return func(c *Ctx) {
+		c.floor(rule, 1, "repository error sentinels that are compared against (today: config.ErrNoRootDirectory)")
+		type use struct{ compared, produced int }
+		uses := map[*types.Var]*use{}
+		var order []*types.Var
+		isErrVar := func(o types.Object) *types.Var {
+			v, ok := o.(*types.Var)
+			if !ok || v.IsField() || v.Pkg() == nil || !strings.HasPrefix(v.Pkg().Path(), modPath) || v.Parent() != v.Pkg().Scope() {
+				return nil
+			}
+			if v.Type().String() != "error" {
+				return nil
+			}
+			return v
+		}
+		for _, pkg := range c.Pkgs {
+			info := pkg.TypesInfo
+			for _, file := range pkg.Syntax {
+				// parents of identifiers
+				var stack []ast.Node
+				ast.Inspect(file, func(n ast.Node) bool {
+					if n == nil {
+						stack = stack[:len(stack)-1]
+						return true
+					}
+					stack = append(stack, n)
+					var id *ast.Ident
+					var whole ast.Expr
+					switch x := n.(type) {
+					case *ast.Ident:
+						id, whole = x, x
+					default:
+						return true
+					}
+					v := isErrVar(info.Uses[id])
+					if v == nil {
+						return true
+					}
+					// qualified use pkg.ErrX: the selector is the whole expression
+					pi := len(stack) - 2
+					if pi >= 0 {
+						if se, ok := stack[pi].(*ast.SelectorExpr); ok && se.Sel == id {
+							whole = se
+							pi--
+						}
+					}
+					u := uses[v]
+					if u == nil {
+						u = &use{}
+						uses[v] = u
+						order = append(order, v)
+					}
+					if pi < 0 {
+						return true
+					}
+					switch p := stack[pi].(type) {
+					case *ast.BinaryExpr:
+						if p.Op == token.EQL || p.Op == token.NEQ {
+							u.compared++
+							return true
+						}
+					case *ast.CaseClause:
+						for _, e := range p.List {
+							if e == whole {
+								u.compared++
+								return true
+							}
+						}
+					case *ast.CallExpr:
+						if fn := calleeObj(info, p); isPkgFunc(fn, "errors", "Is") && len(p.Args) == 2 && p.Args[1] == whole {
+							u.compared++
+							return true
+						}
+					case *ast.SelectorExpr:
+						// S.Error(): a textual use, neither a comparison nor a production
+						if p.X == whole {
+							return true
+						}
+					case *ast.ValueSpec:
+						return true // its own declaration
+					}
+					u.produced++
+					return true
+				})
+			}
+		}
+		sort.Slice(order, func(i, j int) bool {
+			return order[i].Pkg().Path()+order[i].Name() < order[j].Pkg().Path()+order[j].Name()
+		})
+		for _, v := range order {
+			u := uses[v]
+			if u.compared == 0 {
+				continue
+			}
+			rel := strings.TrimPrefix(strings.TrimPrefix(v.Pkg().Path(), modPath), "/")
+			c.add(rule, nil, rel+"."+v.Name(), v.Pos(), map[bool]Verdict{true: Discharged, false: Violated}[u.produced > 0], true,
+				map[bool]string{true: "compared against %d times and produced %d times in the repository", false: "compared against %d times but produced %d times: no code of the repository ever returns, wraps or stores this value, so every branch testing for it is dead (a local copy of another package's error message never matches by identity)"}[u.produced > 0], u.compared, u.produced)
+		}
+	}
+}
+
+// rulePaddingIsFreshZeros: besides what archive/tar emits, the only bytes the tape writer puts on the drive itself are
+// the record padding. They must be freshly allocated zeros (`make([]byte, n)` at the call): a recycled or shared
+// buffer still holds whatever passed through it before - on the tape-drive path that is plaintext file content.
+func rulePaddingIsFreshZeros(rule string) func(*Ctx) {
+	return func(c *Ctx) {
+		c.floor(rule, 1, "raw writes in internal/tarext")
+		n := 0
+		for _, f := range c.Funcs {
+			if f.RelPkg() != "internal/tarext" {
+				continue
+			}
+			info := f.Pkg.TypesInfo
+			for _, cs := range f.calls {
+				fn, ok := cs.Callee.(*types.Func)
+				if !ok || (fn.Name() != "Write" && fn.Name() != "WriteString" && fn.Name() != "ReadFrom") || len(cs.Call.Args) != 1 {
+					continue
+				}
+				se, ok := ast.Unparen(cs.Call.Fun).(*ast.SelectorExpr)
+				if !ok {
+					continue
+				}
+				// writes on the tar writer itself are member content, not raw drive bytes
+				if tv, ok := info.Types[se.X]; ok && strings.Contains(tv.Type.String(), "archive/tar.Writer") {
+					continue
+				}
+				n++
+				arg := ast.Unparen(cs.Call.Args[0])
+				fresh := false
+				if mk, ok := arg.(*ast.CallExpr); ok {
+					if b, ok := calleeObj(info, mk).(*types.Builtin); ok && b.Name() == "make" {
+						fresh = true
+					}
+				}
+				c.verdictIf(fresh, rule, f, fmt.Sprintf("raw write#%d", n), cs.Call.Pos(), "the padding is a freshly allocated zero slice", "bytes other than a fresh `make([]byte, n)` are written to the drive next to the archive ("+exprString(arg)+"): a reused buffer carries earlier content - plaintext - into the record padding")
+			}
+		}
+		if n == 0 {
+			c.unresolved("no raw write found in internal/tarext (the padding write moved?)")
+		}
+	}
+}
+
+// ruleRestoreOnlyThroughFetch: Operations.Restore hands the caller's destination callbacks (getDst, mkdirAll) to
+// recovery.Fetch and to nothing else, and never calls them itself: Fetch is the only step that decrypts and verifies
+// a record, so anything materialised without it (e.g. directories recreated from the index alone) is restored
+// without proof that the caller holds the key or that the record is authentic.
+func ruleRestoreOnlyThroughFetch(rule string) func(*Ctx) {
+	return func(c *Ctx) {
+		c.floor(rule, 2, "uses of Restore's destination callbacks")
+		f := c.fn("pkg/operations", "(*Operations).Restore")
+		fetch := c.fn("pkg/recovery", "Fetch")
+		if f == nil || fetch == nil {
+			return
+		}
+		info := f.Pkg.TypesInfo
+		var cbs []*types.Var
+		for _, pv := range paramsWhere(f, func(v *types.Var) bool {
+			_, ok := v.Type().Underlying().(*types.Signature)
+			return ok
+		}) {
+			cbs = append(cbs, pv)
+		}
+		if len(cbs) < 2 {
+			c.unresolved("Restore has %d callback parameters (expected getDst and mkdirAll)", len(cbs))
+			return
+		}
+		fetchArgs := map[ast.Expr]bool{}
+		scan := func(g *FuncInfo) {
+			for _, cs := range g.calls {
+				if cs.Target == fetch {
+					for _, a := range cs.Call.Args {
+						fetchArgs[ast.Unparen(a)] = true
+					}
+				}
+			}
+		}
+		scan(f)
+		for _, l := range c.litsIn(f) {
+			scan(l)
+		}
+		n := 0
+		ast.Inspect(f.Body(), func(nd ast.Node) bool {
+			id, ok := nd.(*ast.Ident)
+			if !ok {
+				return true
+			}
+			for _, pv := range cbs {
+				if info.Uses[id] == types.Object(pv) {
+					n++
+					c.verdictIf(fetchArgs[id], rule, f, fmt.Sprintf("%s use#%d", pv.Name(), n), id.Pos(), "the callback is handed to recovery.Fetch", "Restore uses its "+pv.Name()+" callback outside recovery.Fetch: the entry is materialised without the record having been decrypted and verified, so a restore with a wrong key (or of a forged record) succeeds for it")
+				}
+			}
+			return true
+		})
+		if n < 2 {
+			c.unresolved("only %d uses of the destination callbacks in Restore", n)
+		}
+	}
+}
+
+// ruleRowLevelWrites: one tape record changes one index row. In the index store the only set-level statements are
+// the whole-table purge of an overwrite and MoveHeader's raw primary-key rewrite (held to `where name = ?` by
+// move-one-row); every other change goes through the fetched row (`row.Update/Insert/Delete`). A query-level
+// UpdateAll/DeleteAll in a replayed mutator touches rows that have records of their own (e.g. the symlink row that
+// shares a directory's name), whose replay then finds nothing and aborts the pass.
+func ruleRowLevelWrites(rule string) func(*Ctx) {
+	return func(c *Ctx) {
+		c.floor(rule, 1, "set-level write calls in pkg/persisters")
+		allowed := map[string]string{
+			"(*MetadataPersister).PurgeAllHeaders": "explicit overwrite: the whole table is emptied before a full rebuild",
+		}
+		n := 0
+		for _, f := range c.Funcs {
+			if f.RelPkg() != "pkg/persisters" {
+				continue
+			}
+			root := f
+			for root.Outer != nil {
+				root = root.Outer
+			}
+			for _, cs := range f.calls {
+				fn, ok := cs.Callee.(*types.Func)
+				if !ok || fn.Pkg() == nil || fn.Pkg().Path() != modelsPath || (fn.Name() != "UpdateAll" && fn.Name() != "DeleteAll") {
+					continue
+				}
+				n++
+				why, ok := allowed[root.Name]
+				c.verdictIf(ok, rule, f, fmt.Sprintf("%s#%d", fn.Name(), n), cs.Call.Pos(), "whitelisted set-level write: "+why,
+					root.Name+" changes rows with the set-level "+fn.Name()+": every row matching the query is rewritten by one record, although each of those rows has records of its own on the tape")
+			}
+		}
+		if n == 0 {
+			c.unresolved("no set-level write found in pkg/persisters (PurgeAllHeaders is expected to use one)")
+		}
+	}
+}
+
+// ruleCreateResetsAllColumns: a CREATE record is the complete new state of its row: replaying it must overwrite every
+// column of an existing row, in particular the tombstone flag (the primary key of a removed entry stays in the
+// table). The row writes reachable from UpsertHeader therefore use the full column set (`boil.Infer()`); a
+// Blacklist/Whitelist would let an earlier state (deleted = 1) survive a re-creation.
+func ruleCreateResetsAllColumns(rule string) func(*Ctx) {
+	return func(c *Ctx) {
+		ruleRowWriteColumns(c, rule, "(*MetadataPersister).UpsertHeader", true, 2)
+		// ... while an UPDATE record must not bring a removed entry back: the row write of UpdateHeaderMetadata
+		// leaves the tombstone flag alone (closing a write handle after the file was removed would otherwise revive
+		// the file beneath a parent that no longer exists)
+		ruleRowWriteColumns(c, rule, "(*MetadataPersister).UpdateHeaderMetadata", false, 1)
+	}
+}
+
+func ruleRowWriteColumns(c *Ctx, rule string, entry string, wantFull bool, floor int) {
+	{
+		c.floor(rule, 3, "row writes reachable from UpsertHeader and UpdateHeaderMetadata")
+		f := c.fn("pkg/persisters", entry)
+		if f == nil {
+			return
+		}
+		set := []*FuncInfo{f}
+		seen := map[*FuncInfo]bool{f: true}
+		for i := 0; i < len(set) && i < 6; i++ {
+			for _, cs := range set[i].calls {
+				if g := cs.Target; g != nil && g.Pkg == f.Pkg && !seen[g] && g.Body() != nil && g.Name != "(*MetadataPersister).getSanitizedPath" {
+					seen[g] = true
+					set = append(set, g)
+				}
+			}
+		}
+		n := 0
+		for _, g := range set {
+			info := g.Pkg.TypesInfo
+			for _, cs := range g.calls {
+				if !isMethod(cs.Callee, modelsPath, "Header", "Update") && !isMethod(cs.Callee, modelsPath, "Header", "Insert") && !isMethod(cs.Callee, modelsPath, "Header", "Upsert") {
+					continue
+				}
+				n++
+				full := false
+				if len(cs.Call.Args) >= 3 {
+					if call, ok := ast.Unparen(cs.Call.Args[len(cs.Call.Args)-1]).(*ast.CallExpr); ok {
+						if fn, ok := calleeObj(info, call).(*types.Func); ok && fn.Name() == "Infer" && strings.HasSuffix(fn.Pkg().Path(), "/boil") {
+							full = true
+						}
+					}
+				}
+				short := strings.TrimPrefix(entry, "(*MetadataPersister).")
+				if wantFull {
+					c.verdictIf(full, rule, g, fmt.Sprintf("%s %s#%d columns", short, cs.Callee.Name(), n), cs.Call.Pos(), "the row is written with the full column set", "a row write reachable from UpsertHeader does not use the full column set ("+exprString(cs.Call.Args[len(cs.Call.Args)-1])+"): columns left out keep their earlier value, so re-creating a removed name leaves its row deleted (or with stale fields) while the call succeeds")
+					continue
+				}
+				// the column set must exclude the tombstone flag: boil.Blacklist(..., <Deleted column>, ...)
+				keeps := false
+				if len(cs.Call.Args) >= 3 {
+					if call, ok := ast.Unparen(cs.Call.Args[len(cs.Call.Args)-1]).(*ast.CallExpr); ok {
+						if fn, ok := calleeObj(info, call).(*types.Func); ok && fn.Name() == "Blacklist" && strings.HasSuffix(fn.Pkg().Path(), "/boil") {
+							for _, a := range call.Args {
+								if se, ok := ast.Unparen(a).(*ast.SelectorExpr); ok && se.Sel.Name == "Deleted" {
+									keeps = true
+								}
+								if sv, ok := constString(info, a); ok && sv == "deleted" {
+									keeps = true
+								}
+							}
+						}
+					}
+				}
+				c.verdictIf(keeps, rule, g, fmt.Sprintf("%s %s#%d columns", short, cs.Callee.Name(), n), cs.Call.Pos(), "the update leaves the tombstone flag alone", "the row write of UpdateHeaderMetadata also writes the `deleted` column ("+exprString(cs.Call.Args[len(cs.Call.Args)-1])+"): an UPDATE record for a removed entry (a write handle closed after its file was removed) clears the tombstone, so the file reappears - possibly beneath a directory that no longer exists")
+			}
+		}
+		if n < floor {
+			c.unresolved("only %d row writes reachable from %s", n, entry)
+		}
+	}
+}
+
+// ruleCachedSizeReadModeOnly: the FileInfo cached in a handle holds the size the entry had when the handle was opened
+// (refreshed only by Stat/Sync). Once the handle is in write mode the buffer is the truth, so a decision in a
+// read/seek path may consult the cached size only where the handle is known not to be in write mode
+// (`writeBuf == nil`): otherwise growing the file through the handle and then reading near its new end is answered
+// from the stale size.
+func ruleCachedSizeReadModeOnly(rule string) func(*Ctx) {
+	return func(c *Ctx) {
+		c.floor(rule, 2, "reads of the cached size in (*File) methods")
+		infoField := c.field("pkg/fs", "File", "info")
+		writeBuf := c.field("pkg/fs", "File", "writeBuf")
+		if infoField == nil || writeBuf == nil {
+			return
+		}
+		n := 0
+		for _, f := range c.Funcs {
+			if f.RelPkg() != "pkg/fs" || f.Body() == nil {
+				continue
+			}
+			root := f
+			for root.Outer != nil {
+				root = root.Outer
+			}
+			if !strings.HasPrefix(root.Name, "(*File).") {
+				continue
+			}
+			info := f.Pkg.TypesInfo
+			fl := c.flow(f)
+			for _, cs := range f.calls {
+				se, ok := ast.Unparen(cs.Call.Fun).(*ast.SelectorExpr)
+				if !ok || se.Sel.Name != "Size" || selField(info, se.X) != infoField {
+					continue
+				}
+				n++
+				readMode, reach := fl.guardedBy(cs.Call, func(ft Fact) bool {
+					be, ok := ast.Unparen(ft.E).(*ast.BinaryExpr)
+					if !ok {
+						return false
+					}
+					var x ast.Expr
+					if isNilIdent(info, be.Y) {
+						x = be.X
+					} else if isNilIdent(info, be.X) {
+						x = be.Y
+					}
+					if x == nil || selField(info, x) != writeBuf {
+						return false
+					}
+					return be.Op == token.EQL && ft.Pos || be.Op == token.NEQ && !ft.Pos
+				}, nil)
+				if !reach {
+					continue
+				}
+				c.verdictIf(readMode, rule, f, fmt.Sprintf("cached size#%d", n), cs.Call.Pos(), "the cached size is consulted only where the handle is not in write mode",
+					"the size cached at open time is consulted on a path where the handle may be in write mode: after growing (or shrinking) the file through this handle the answer is stale - a read at an offset inside the new content reports end of file")
+			}
+		}
+		if n < 2 {
+			c.unresolved("only %d reads of the cached size found in (*File) methods", n)
+		}
+	}
+}
+
+// rulePasswordVerbatim: key generation and key parsing must hand the very same password bytes to the key library -
+// a key is only usable if the password that wrapped it is the one that unwraps it. Decided structurally: in
+// pkg/keys and pkg/utility a `password string` parameter is never reassigned, and it is consumed only by (a) a
+// comparison, (b) a key-library call (frozen package list) that receives it directly or as `[]byte(password)`,
+// (c) another function of those packages held to the same rule. A transformation on one side only (trimming,
+// normalising, hashing) silently makes freshly generated keys unusable for some passwords.
+func rulePasswordVerbatim(rule string) func(*Ctx) {
+	return func(c *Ctx) {
+		c.floor(rule, 8, "uses of password parameters in pkg/keys and pkg/utility")
+		keyLibs := []string{"filippo.io/age", "aead.dev/minisign", "github.com/ProtonMail/go-crypto/openpgp", "github.com/ProtonMail/gopenpgp/v2"}
+		inScope := func(f *FuncInfo) *types.Var {
+			if f.RelPkg() != "pkg/keys" && f.RelPkg() != "pkg/utility" {
+				return nil
+			}
+			for _, pv := range paramsWhere(f, func(v *types.Var) bool {
+				b, ok := v.Type().Underlying().(*types.Basic)
+				return ok && b.Kind() == types.String && v.Name() == "password"
+			}) {
+				return pv
+			}
+			return nil
+		}
+		n := 0
+		for _, f := range c.Funcs {
+			pv := inScope(f)
+			if pv == nil || f.Body() == nil {
+				continue
+			}
+			info := f.Pkg.TypesInfo
+			// parent map
+			parent := map[ast.Node]ast.Node{}
+			var stack []ast.Node
+			ast.Inspect(f.Body(), func(nd ast.Node) bool {
+				if nd == nil {
+					stack = stack[:len(stack)-1]
+					return true
+				}
+				if len(stack) > 0 {
+					parent[nd] = stack[len(stack)-1]
+				}
+				stack = append(stack, nd)
+				return true
+			})
+			k := 0
+			ast.Inspect(f.Body(), func(nd ast.Node) bool {
+				id, ok := nd.(*ast.Ident)
+				if !ok || info.Uses[id] != types.Object(pv) {
+					return true
+				}
+				n++
+				k++
+				construct := fmt.Sprintf("password use#%d", k)
+				var e ast.Node = id
+				p := parent[e]
+				for {
+					if pe, ok := p.(*ast.ParenExpr); ok {
+						e, p = pe, parent[pe]
+						continue
+					}
+					break
+				}
+				// []byte(password)
+				if call, ok := p.(*ast.CallExpr); ok && len(call.Args) == 1 && call.Args[0] == e {
+					if tv, ok := info.Types[call.Fun]; ok && tv.IsType() && tv.Type.String() == "[]byte" {
+						e, p = call, parent[call]
+					}
+				}
+				switch x := p.(type) {
+				case *ast.BinaryExpr:
+					if x.Op == token.EQL || x.Op == token.NEQ {
+						c.ok(rule, f, construct, id.Pos(), false, "compared (empty-password guard)")
+						return true
+					}
+				case *ast.AssignStmt:
+					for _, l := range x.Lhs {
+						if l == e {
+							c.bad(rule, f, construct, id.Pos(), "%s reassigns its password parameter: the bytes handed to the key library differ from what the caller supplied, and the other side (generation vs. parsing) does not apply the same change", f.Name)
+							return true
+						}
+					}
+				case *ast.CallExpr:
+					isArg := false
+					for _, a := range x.Args {
+						if a == e {
+							isArg = true
+						}
+					}
+					if isArg {
+						if fn, ok := calleeObj(info, x).(*types.Func); ok && fn.Pkg() != nil {
+							if inRepo(fn) {
+								if g := c.byObj[fn]; g != nil && inScope(g) != nil {
+									c.ok(rule, f, construct, id.Pos(), true, "passed on to "+fn.Name()+", which is held to the same rule")
+									return true
+								}
+							} else {
+								for _, lib := range keyLibs {
+									if strings.HasPrefix(fn.Pkg().Path(), lib) {
+										c.ok(rule, f, construct, id.Pos(), true, "handed verbatim to "+fn.Pkg().Name()+"."+fn.Name())
+										return true
+									}
+								}
+							}
+							c.bad(rule, f, construct, id.Pos(), "the password is passed to %s.%s, which is neither a key-library call nor a password-handling function of pkg/keys or pkg/utility: a transformation applied on one side only makes keys generated with some passwords impossible to parse with the same password", fn.Pkg().Name(), fn.Name())
+							return true
+						}
+					}
+				}
+				c.bad(rule, f, construct, id.Pos(), "the password is used at %s in a way that is not a comparison, a key-library call or a pass-through", c.pos(p.Pos()))
+				return true
+			})
+		}
+		if n < half(8) {
+			c.unresolved("only %d uses of password parameters found", n)
+		}
+	}
+}
+
+// ruleStreamWrapperContract: io.Reader allows a final chunk to arrive together with io.EOF ("process the n > 0 bytes
+// returned before considering the error"); archive/tar, lz4 and zstd readers do exactly that. A repository wrapper
+// that accounts for the bytes passing through it (counts them, hashes them) must therefore do so before it looks at
+// the error: on every return after the inner Read/Write the accounting statement has run.
+func ruleStreamWrapperContract(rule string) func(*Ctx) {
+	return func(c *Ctx) {
+		c.floor(rule, 4, "Read/Write wrapper methods with byte accounting")
+		n := 0
+		for _, f := range c.Funcs {
+			if f.Decl == nil || f.Decl.Recv == nil || (f.Decl.Name.Name != "Read" && f.Decl.Name.Name != "Write") || !inRepoPkg(f) {
+				continue
+			}
+			sig := f.Obj.Type().(*types.Signature)
+			if sig.Params().Len() != 1 || sig.Results().Len() != 2 {
+				continue
+			}
+			info := f.Pkg.TypesInfo
+			// the delegating assignment `n, err = inner.Read(p)`
+			var inner *ast.AssignStmt
+			var nObj types.Object
+			walkOwn(f.Body(), func(nd ast.Node) {
+				as, ok := nd.(*ast.AssignStmt)
+				if !ok || len(as.Lhs) != 2 || len(as.Rhs) != 1 || inner != nil {
+					return
+				}
+				call, ok := ast.Unparen(as.Rhs[0]).(*ast.CallExpr)
+				if !ok {
+					return
+				}
+				if se, ok := ast.Unparen(call.Fun).(*ast.SelectorExpr); ok && se.Sel.Name == f.Decl.Name.Name {
+					inner = as
+					nObj = objOfIdent(info, as.Lhs[0])
+				}
+			})
+			if inner == nil || nObj == nil {
+				continue
+			}
+			isAccounting := func(nd ast.Node) bool {
+				switch x := nd.(type) {
+				case *ast.AssignStmt:
+					if x == inner {
+						return false
+					}
+					for _, r := range x.Rhs {
+						if usesObj(info, r, nObj) {
+							return true
+						}
+					}
+				case *ast.IncDecStmt:
+					return false
+				case *ast.ExprStmt:
+					return usesObj(info, x.X, nObj)
+				}
+				return false
+			}
+			has := false
+			walkOwn(f.Body(), func(nd ast.Node) {
+				if isAccounting(nd) {
+					has = true
+				}
+			})
+			if !has {
+				continue
+			}
+			n++
+			fl := c.flow(f)
+			const delegated, accounted = 1, 2
+			an := &Analysis{Must: true, Entry: 0, Node: func(nd ast.Node, st State) State {
+				if nd == ast.Node(inner) {
+					return (st | delegated) &^ accounted
+				}
+				if isAccounting(nd) {
+					st |= accounted
+				}
+				return st
+			}}
+			fl.solve(an)
+			good := true
+			var where token.Pos
+			fl.exits(an, func(ret *ast.ReturnStmt, ord int, st State) {
+				if st&delegated != 0 && st&accounted == 0 {
+					good = false
+					if ret != nil {
+						where = ret.Pos()
+					}
+				}
+			})
+			if where == token.NoPos {
+				where = f.Decl.Pos()
+			}
+			c.verdictIf(good, rule, f, "accounts before returning", where, "the bytes are accounted for before any return, whatever the error",
+				"the wrapper can return after the inner "+f.Decl.Name.Name+" without having accounted for the n bytes it delivered (an early return on err != nil): a final chunk that arrives together with io.EOF is passed on but not counted/hashed, so signatures over streams from tar, lz4 or zstd readers no longer verify")
+		}
+		if n < half(4) {
+			c.unresolved("only %d accounting stream wrappers found", n)
+		}
+	}
+}
+
+func inRepoPkg(f *FuncInfo) bool {
+	return f.Pkg != nil && strings.HasPrefix(f.Pkg.PkgPath, modPath) && !strings.Contains(f.Pkg.PkgPath, "/internal/db/")
+}
+
+// ruleNoBoundedCopy: the codecs copy their whole input; a silent bound (io.LimitReader, io.CopyN, io.LimitedReader)
+// in pkg/encryption, pkg/signature, pkg/compression or internal/ioext ends a stream cleanly at the bound, so a
+// longer value (a header with a large extended attribute) comes back truncated without an error.
+func ruleNoBoundedCopy(rule string) func(*Ctx) {
+	return func(c *Ctx) {
+		c.floor(rule, 1, "bounded-copy call sites in the codec packages (expected none; matcher verified on a fixture)")
+		isBounded := func(o types.Object) bool {
+			return isPkgFunc(o, "io", "LimitReader") || isPkgFunc(o, "io", "CopyN") || isPkgFunc(o, "io", "NewSectionReader")
+		}
+		scope := map[string]bool{"pkg/encryption": true, "pkg/signature": true, "pkg/compression": true, "internal/ioext": true, "pkg/keys": true}
+		n := 0
+		for _, f := range c.Funcs {
+			if !scope[f.RelPkg()] {
+				continue
+			}
+			for _, cs := range f.calls {
+				if isBounded(cs.Callee) {
+					n++
+					c.bad(rule, f, fmt.Sprintf("bounded copy#%d", n), cs.Call.Pos(), "%s in a codec: input beyond the bound is dropped without an error (the stream ends cleanly at the limit), so long values come back truncated", exprString(cs.Call.Fun))
+				}
+			}
+		}
+		if n == 0 {
+			fc, err := fixtureCtx("pkg/fixture", "package fixture\nimport \"io\"\nfunc f(r io.Reader) io.Reader { return io.LimitReader(r, 10) }\n")
+			alive := false
+			if err == nil {
+				for _, g := range fc.Funcs {
+					for _, cs := range g.calls {
+						if isBounded(cs.Callee) {
+							alive = true
+						}
+					}
+				}
+			}
+			if !alive {
+				c.unresolved("bounded-copy matcher failed its positive control")
+			}
+			c.ok(rule, nil, "no bounded copy", token.NoPos, false, "no io.LimitReader/CopyN in the codec packages (matcher verified on an embedded fixture)")
+		}
+	}
+}
+
+// ruleRootCacheWriters: the index store caches the root spelling; while the cache is empty, getSanitizedPath adopts
+// the first absolute name it is asked about as the root. The cache is therefore written only by the frozen set of
+// functions below, and emptied only by the whole-table purge: clearing it anywhere else re-opens the adoption window
+// in the middle of a session (a lookup that runs outside the filesystem lock - Create's parent check - then turns an
+// arbitrary path into the root, after which "/" stops resolving).
+func ruleRootCacheWriters(rule string) func(*Ctx) {
+	return func(c *Ctx) {
+		c.floor(rule, 5, "stores to MetadataPersister.root")
+		rootField := c.field("pkg/persisters", "MetadataPersister", "root")
+		if rootField == nil {
+			return
+		}
+		writers := map[string]string{
+			"NewMetadataPersister":                  "constructor (composite literal): nothing is shared yet",
+			"(*MetadataPersister).Open":             "pre-loads the root when the database is opened",
+			"(*MetadataPersister).GetRootPath":      "fills the cache from the table",
+			"(*MetadataPersister).PurgeAllHeaders":  "the table is emptied, so is the cache",
+			"(*MetadataPersister).getSanitizedPath": "lazy adoption while no root is known (first CREATE of a fresh index)",
+		}
+		n := 0
+		for _, st := range c.storesTo(rootField) {
+			n++
+			root := st.In
+			for root.Outer != nil {
+				root = root.Outer
+			}
+			why, ok := writers[root.Name]
+			construct := fmt.Sprintf("store#%d in %s", n, root.Name)
+			if !ok {
+				c.bad(rule, st.In, construct, st.Node.Pos(), "%s writes the cached root; only Open, GetRootPath, PurgeAllHeaders and getSanitizedPath may", root.Name)
+				continue
+			}
+			info := st.In.Pkg.TypesInfo
+			if st.Value != nil {
+				if sv, isConst := constString(info, st.Value); isConst && sv == "" && root.Name != "(*MetadataPersister).PurgeAllHeaders" && root.Name != "NewMetadataPersister" {
+					c.bad(rule, st.In, construct, st.Node.Pos(), "%s empties the cached root outside the whole-table purge", root.Name)
+					continue
+				}
+			}
+			c.ok(rule, st.In, construct, st.Node.Pos(), true, "whitelisted writer: "+why)
+		}
+		if n < half(5) {
+			c.unresolved("only %d stores to MetadataPersister.root found", n)
+		}
+	}
+}
+
+// ruleCacheLayerStartsEmpty: the read cache wrapped around a freshly constructed filesystem must start empty - a
+// new in-memory layer, or an on-disk directory that was removed (successfully) before it is used. A layer that
+// survives from an earlier process serves listings and contents of a tape state that is gone.
+func ruleCacheLayerStartsEmpty(rule string) func(*Ctx) {
+	return func(c *Ctx) {
+		c.floor(rule, 4, "cache layers of NewCacheFilesystem")
+		f := c.fn("pkg/cache", "NewCacheFilesystem")
+		if f == nil {
+			return
+		}
+		info := f.Pkg.TypesInfo
+		fl := c.flow(f)
+		n := 0
+		for _, cs := range f.calls {
+			fn, ok := cs.Callee.(*types.Func)
+			if !ok || fn.Name() != "NewCacheOnReadFs" || len(cs.Call.Args) < 2 {
+				continue
+			}
+			n++
+			layer := ast.Unparen(cs.Call.Args[1])
+			lc, ok := layer.(*ast.CallExpr)
+			good, why := false, "the cache layer is "+exprString(layer)
+			if ok {
+				if lf, ok := calleeObj(info, lc).(*types.Func); ok {
+					switch lf.Name() {
+					case "NewMemMapFs":
+						good = true
+					case "NewBasePathFs":
+						if len(lc.Args) == 2 {
+							dir := objOfIdent(info, lc.Args[1])
+							if dir != nil {
+								okk, _ := c.successDominates(fl, cs.Call, func(call *ast.CallExpr) bool {
+									return isPkgFunc(calleeObj(info, call), "os", "RemoveAll") && len(call.Args) == 1 && objOfIdent(info, call.Args[0]) == dir
+								}, nil)
+								good = okk
+								why = "the on-disk cache directory " + dir.Name() + " is used without having been removed first"
+							}
+						}
+					}
+				}
+			}
+			c.verdictIf(good, rule, f, fmt.Sprintf("cache layer#%d", n), cs.Call.Pos(), "the cache layer starts empty", why+": entries cached by an earlier process are served although the tape has changed since, so the filesystem does not show what a rebuild of the tape shows")
+		}
+		if n < half(4) {
+			c.unresolved("only %d NewCacheOnReadFs calls in NewCacheFilesystem", n)
+		}
+	}
+}
+
+// ruleRenameMoves: Rename reports success only as the result of Operations.Move: there is no exit that returns nil
+// (literally, or through an error variable that is known to be nil on that path) without the entry having been
+// moved. The replace-an-existing-target branch removes the target first; returning there reports a rename that never
+// happened after having destroyed the destination.
+func ruleRenameMoves(rule string) func(*Ctx) {
+	return func(c *Ctx) {
+		c.floor(rule, 2, "exits of STFS.Rename that can report success")
+		f := c.fn("pkg/fs", "(*STFS).Rename")
+		move := c.fn("pkg/operations", "(*Operations).Move")
+		if f == nil || move == nil {
+			return
+		}
+		info := f.Pkg.TypesInfo
+		fl := c.flow(f)
+		n, viaMove := 0, 0
+		for i, ret := range returnsIn(f) {
+			if len(ret.Results) != 1 {
+				continue
+			}
+			r := ast.Unparen(ret.Results[0])
+			if call, ok := r.(*ast.CallExpr); ok {
+				if calleeObj(info, call) == types.Object(move.Obj) {
+					n++
+					viaMove++
+					c.ok(rule, f, fmt.Sprintf("return#%d", i+1), ret.Pos(), true, "returns the result of Operations.Move")
+				}
+				continue
+			}
+			success := isNilIdent(info, r)
+			if !success {
+				if o := objOfIdent(info, r); o != nil {
+					isNilFact := func(ft Fact) bool {
+						be, ok := ast.Unparen(ft.E).(*ast.BinaryExpr)
+						if !ok {
+							return false
+						}
+						var x ast.Expr
+						if isNilIdent(info, be.Y) {
+							x = be.X
+						} else if isNilIdent(info, be.X) {
+							x = be.Y
+						}
+						if x == nil || objOfIdent(info, x) != o {
+							return false
+						}
+						return be.Op == token.EQL && ft.Pos || be.Op == token.NEQ && !ft.Pos
+					}
+					an := &Analysis{Must: true, Entry: 0,
+						Node: func(nd ast.Node, st State) State {
+							// an assignment to the variable ends the knowledge
+							if as, ok := nd.(*ast.AssignStmt); ok {
+								for _, l := range as.Lhs {
+									if objOfIdent(info, l) == o {
+										return st &^ 1
+									}
+								}
+							}
+							return st
+						},
+						Edge: func(b *cfg.Block, i int, st State) State {
+							for _, ft := range fl.edgeFacts(b, i) {
+								if isNilFact(ft) {
+									st |= 1
+								}
+							}
+							return st
+						}}
+					fl.solve(an)
+					st, reach := fl.before(an, ret)
+					known := st&1 != 0
+					success = reach && known
+				}
+			}
+			if !success {
+				continue
+			}
+			n++
+			c.bad(rule, f, fmt.Sprintf("success without Move#%d", n-viaMove), ret.Pos(), "Rename can report success here without having called Operations.Move (the returned error is nil on this path): with an existing destination of the same kind the destination is removed, the source stays where it was, and the caller is told the rename happened")
+		}
+		if viaMove == 0 {
+			c.unresolved("STFS.Rename no longer returns the result of Operations.Move")
+		}
+	}
 }
